@@ -20,6 +20,7 @@ CLAIMED = {
  "C18": ("exploration", "Two real server objects over one engine with a simulated peer transport; full request-type x role x proxy x peer-state matrix per run class, plus concurrent follower reads against a writing leader under seeded schedules and delayed responses; freshness judged against the leader's committed revision sampled at the read's invoke step, content against the MVCC model.", "6 (C18)"),
  "C20": ("exploration", "Seeded hostile requests through both handler sets of a real NewServer leader with the real Prometheus client, racing clients, failing streams; a liveness probe after requests turns 'wedged' into an observable; panics recovered on request goroutines, worker deaths with repository frames re-executed in a fresh process; recording wrapper checks metric name -> kind/label-set consistency independent of order.", "6 (C20)"),
  "C17": ("exploration", "Seeded histories over event keys, look-alikes and ordinary keys on the simulated clock (pauses around the TTL, compaction marks), on native-TTL engines (memkv timers, Badger entry TTL on the fake clock) and TTL-less engines (seam freedom, TiKV mock); expiry model over observed reads, engine dump for whole-key removal, re-creation probe, watch stream compared with client writes only.", "6 (C17)"),
+ "C19": ("exploration", "The simulator's seeded workloads run free (real threads, no bubble, hooks off) in a -race build with unknown-outcome injection so that the retry loop runs; every data-race report with repository frames is a violation. Weaker than the other checks: the workload replays from its seed, the interleaving does not.", "6 (C19)"),
 }
 TECH = "deterministic simulation with fault injection (seeded token scheduler over testing/synctest, simkv fault seam, reference-model oracles)"
 NOTE = "Trusted: Go 1.26.8 testing/synctest quiescence, the simulator's decoder of the key layout, the hook lines (add-only, tag verif). Sampled search: clean run = evidence, not proof."
